@@ -510,7 +510,74 @@ func dnBinary(c *vf.Ctx) {
 			vf.Try(func() { s2 = d2.String() })
 			c.Check("C14/dnwithbinary/ToString∘Parse/identity/"+cls, s2 == s, func() string { return fmt.Sprintf("Parse(%q).String() = %q", abbreviate(s), abbreviate(s2)) })
 		}
+		// one receiver for the values of a multi-valued attribute (the usual loop): what the first Parse handed out
+		// stays what it was when the second value - as long, or shorter - is parsed into the same receiver, and the
+		// second value comes back as a fresh receiver reads it
+		for _, n2 := range []int{n, n / 2, 0} {
+			bin2 := enum.Counter(n2, 0x11)
+			dn2 := "CN=second," + dn
+			s1 := (&kcl.DNWithBinary{DistinguishedName: dn, BinaryData: bin}).ToString()
+			s2 := (&kcl.DNWithBinary{DistinguishedName: dn2, BinaryData: bin2}).ToString()
+			var d kcl.DNWithBinary
+			var e1, e2 error
+			var held []byte
+			var heldDN string
+			pn, msg, where := vf.Try(func() {
+				if e1 = d.Parse([]byte(s1)); e1 != nil {
+					return
+				}
+				held, heldDN = d.BinaryData, d.DistinguishedName
+				e2 = d.Parse([]byte(s2))
+			})
+			if pn || e1 != nil {
+				continue // reported by the identity obligation above
+			}
+			c.Check("C14/dnwithbinary/history/first-value-still-held-after-second-Parse-on-the-receiver", bytes.Equal(held, bin) && heldDN == dn, func() string {
+				return fmt.Sprintf("one receiver: Parse(value 1: %d bytes); caller keeps BinaryData; Parse(value 2: %d bytes): the kept bytes are now %s, were %s (%s %s)", n, n2, vf.HexS(held), vf.HexS(bin), msg, where)
+			})
+			c.Check("C14/dnwithbinary/history/second-Parse-on-the-receiver-reads-like-a-fresh-one", e2 == nil && d.DistinguishedName == dn2 && bytes.Equal(d.BinaryData, bin2), func() string {
+				return fmt.Sprintf("one receiver: Parse(value 1: %d bytes), Parse(value 2: %d bytes) -> err=%v dn=%q bin=%s, want dn=%q bin=%s", n, n2, e2, d.DistinguishedName, vf.HexS(d.BinaryData), dn2, vf.HexS(bin2))
+			})
+		}
 	})
+	// two real credentials read through ONE DNWithBinary receiver: the first credential keeps its value
+	for _, fa := range []cfg{{}, {ver: 2, mod: 2, exp: 1, gd: 2, ll: 4, cr: 5, us: 5, so: 1}} {
+		for _, fb := range []cfg{{}, {ver: 1, mod: 1, pr: 1}, {ver: 2, mod: 2, exp: 1, gd: 2, ll: 4, cr: 5, us: 5, so: 1}} {
+			ba, erra := build(fa)
+			bb, errb := build(fb)
+			if erra != nil || errb != nil {
+				continue
+			}
+			sa := (&kcl.DNWithBinary{DistinguishedName: realistic[0], BinaryData: append([]byte{}, ba.blob...)}).ToString()
+			sb := (&kcl.DNWithBinary{DistinguishedName: realistic[1], BinaryData: append([]byte{}, bb.blob...)}).ToString()
+			var d kcl.DNWithBinary
+			ka, kb := &kcl.KeyCredential{}, &kcl.KeyCredential{}
+			var out []byte
+			okA, okB := false, false
+			var err error
+			pn, msg, where := vf.Try(func() {
+				if err = d.Parse([]byte(sa)); err != nil {
+					return
+				}
+				if err = ka.ParseDNWithBinary(d); err != nil {
+					return
+				}
+				if err = d.Parse([]byte(sb)); err != nil {
+					return
+				}
+				if err = kb.ParseDNWithBinary(d); err != nil {
+					return
+				}
+				okA, okB = ka.CheckIntegrity(), kb.CheckIntegrity()
+				out, err = ka.ToBytes()
+			})
+			c.Case([]byte("dnb.kc2"), []byte(sa), []byte(sb))
+			c.Check("C14/dnwithbinary/history/two-credentials-through-one-receiver/first-credential-keeps-its-value", !pn && err == nil && okA && okB && ka.Identifier == ba.id && kb.Identifier == bb.id && bytes.Equal(out, ba.blob), func() string {
+				return fmt.Sprintf("credentials {%v} and {%v} parsed one after the other through one DNWithBinary: err=%v integrity first=%v second=%v identifiers %q/%q want %q/%q; first re-serialises identically=%v (panic=%v %s %s)",
+					fa, fb, err, okA, okB, ka.Identifier, kb.Identifier, ba.id, bb.id, bytes.Equal(out, ba.blob), pn, msg, where)
+			})
+		}
+	}
 	// a real credential through the DN-Binary form
 	for _, f := range []cfg{{}, {ver: 1, mod: 1, pr: 1}, {ver: 2, mod: 2, exp: 1, gd: 2, ll: 4, cr: 5, us: 5, so: 1}} {
 		for _, dn := range realistic[:5] {
